@@ -34,6 +34,8 @@ structure Keyring where
   root : Key
   keys : List (Nat × Key)
   active : Nat
+  /-- `rotationConfig.Interval` in days (0 = none); `MaxOperations` stays at its default in every stream -/
+  rot : Nat := 0
   deriving DecidableEq, Repr
 
 def Keyring.termKey (kr : Keyring) (t : Nat) : Option Key := kr.keys.lookup t
@@ -90,6 +92,7 @@ inductive Res where
   | sealed | nsSealed | invalidKey | notInit | alreadyInit | keySize | cipher | noTerm (t : Nat) | decrypt
   | conflict | missing | deser | termMismatch
   | io                     -- an injected storage failure surfaced by the operation
+  | due                    -- `CheckBarrierAutoRotate` answers "reached max operations": the caller must rotate
   | panic | unmodelled
   deriving DecidableEq, Repr
 
@@ -97,6 +100,10 @@ structure Barrier where
   sealed : Bool := true
   keyring : Option Keyring := none
   initFlag : Bool := false
+  /-- `UnaccountedEncryptions > 0`: something was encrypted since the last bookkeeping tick / rotation / reload -/
+  dirty : Bool := false
+  /-- the encryption count is above `MaxOperations` (the harness sets the counter; not reachable by traffic) -/
+  hot : Bool := false
   deriving DecidableEq, Repr
 
 inductive Op where
@@ -113,6 +120,9 @@ inductive Op where
   | reloadkr | reloadroot
   | mkupgrade (t : Nat) | chkupgrade | rmupgrade (t : Nat)
   | verifyroot (k : Key) | keyinfo
+  | tick                    -- `CheckBarrierAutoRotate`: the 5-minute bookkeeping tick of the active node
+  | setrot (days : Nat)     -- `SetRotationConfig` with `Interval = days * 24h`
+  | heat                    -- harness only: push the encryption counter above `MaxOperations`
   deriving DecidableEq, Repr
 
 /-- effect of one barrier operation: new in-memory barrier, physical writes in program order, result, and whether
@@ -164,11 +174,11 @@ def step (ns : Bool) (p : Phys) (b : Barrier) (fk : Key) : Op → Eff
     match persist kr with
     | (ws, .ok) =>
       match sealK with
-      | none => { bar := b, writes := ws, res := .ok, gen := true }
+      | none => { bar := { b with dirty := true }, writes := ws, res := .ok, gen := true }
       | some s =>
-        if !fk.aesOK then { bar := b, writes := ws, res := .cipher, gen := true } else
-        { bar := b, writes := ws ++ [.put .kek (.enc 1 fk .kek (.val (.raw s)))], res := .ok, gen := true }
-    | (ws, r) => { bar := b, writes := ws, res := r, gen := !ws.isEmpty }
+        if !fk.aesOK then { bar := { b with dirty := true }, writes := ws, res := .cipher, gen := true } else
+        { bar := { b with dirty := true }, writes := ws ++ [.put .kek (.enc 1 fk .kek (.val (.raw s)))], res := .ok, gen := true }
+    | (ws, r) => { bar := { b with dirty := b.dirty || !ws.isEmpty }, writes := ws, res := r, gen := !ws.isEmpty }
   | .unsealB k =>
     if !b.sealed then { bar := b, res := .ok } else
     if !k.aesOK then { bar := b, res := .cipher } else
@@ -192,7 +202,7 @@ def step (ns : Bool) (p : Phys) (b : Barrier) (fk : Key) : Op → Eff
       | none => { bar := b, res := .panic }
       | some ak =>
         if !ak.aesOK then { bar := b, res := .cipher } else
-        { bar := b, writes := [.put (.data key) (.enc kr.active ak (.data key) (.val (.bytes v)))], res := .ok }
+        { bar := { b with dirty := true }, writes := [.put (.data key) (.enc kr.active ak (.data key) (.val (.bytes v)))], res := .ok }
   | .get path =>
     if b.sealed then { bar := b, res := .sealed } else { bar := b, res := readEntry p b.keyring path }
   | .del key =>
@@ -208,8 +218,8 @@ def step (ns : Bool) (p : Phys) (b : Barrier) (fk : Key) : Op → Eff
       | none => { bar := b, res := .conflict }
       | some nkr =>
         match persist nkr with
-        | (ws, .ok) => { bar := { b with keyring := some nkr }, writes := ws, res := .okTerm (kr.active + 1), gen := true }
-        | (ws, r) => { bar := b, writes := ws, res := r, gen := !ws.isEmpty }
+        | (ws, .ok) => { bar := { b with keyring := some nkr, dirty := false, hot := false }, writes := ws, res := .okTerm (kr.active + 1), gen := true }
+        | (ws, r) => { bar := { b with dirty := b.dirty || !ws.isEmpty }, writes := ws, res := r, gen := !ws.isEmpty }
   | .rotroot k =>
     if b.sealed then { bar := b, res := .sealed } else
     if !k.sizeOK then { bar := b, res := .keySize } else
@@ -218,8 +228,8 @@ def step (ns : Bool) (p : Phys) (b : Barrier) (fk : Key) : Op → Eff
     | some kr =>
       let nkr := { kr with root := k }
       match persist nkr with
-      | (ws, .ok) => { bar := { b with keyring := some nkr }, writes := ws, res := .ok }
-      | (ws, r) => { bar := b, writes := ws, res := r }
+      | (ws, .ok) => { bar := { b with keyring := some nkr, dirty := true }, writes := ws, res := .ok }
+      | (ws, r) => { bar := { b with dirty := b.dirty || !ws.isEmpty }, writes := ws, res := r }
   | .setroot k =>
     if b.sealed then { bar := b, res := .sealed } else
     if !k.sizeOK then { bar := b, res := .keySize } else
@@ -237,7 +247,7 @@ def step (ns : Bool) (p : Phys) (b : Barrier) (fk : Key) : Op → Eff
         if t ≠ 1 then { bar := b, res := .termMismatch } else
         if ek = kr.root ∧ aad = .keyring then
           match pl with
-          | .keyring nkr => { bar := { b with keyring := some nkr }, res := .ok }
+          | .keyring nkr => { bar := { b with keyring := some nkr, dirty := false, hot := false }, res := .ok }
           | _ => { bar := b, res := .deser }
         else { bar := b, res := .invalidKey }
       | some _ => { bar := b, res := .unmodelled }
@@ -266,7 +276,7 @@ def step (ns : Bool) (p : Phys) (b : Barrier) (fk : Key) : Op → Eff
       match kr.termKey t, kr.termKey (t - 1) with
       | some tk, some pk =>
         if !pk.aesOK then { bar := b, res := .cipher } else
-        { bar := b, writes := [.put (.upgrade (t - 1)) (.enc (t - 1) pk (.upgrade (t - 1)) (.val (.keyrec t tk)))], res := .ok }
+        { bar := { b with dirty := true }, writes := [.put (.upgrade (t - 1)) (.enc (t - 1) pk (.upgrade (t - 1)) (.val (.keyrec t tk)))], res := .ok }
       | _, none => { bar := b, res := .panic }       -- nil AEAD for the previous term (and a leaked read lock)
       | none, some _ => { bar := b, res := .unmodelled } -- would store JSON `null`
   | .chkupgrade =>
@@ -295,6 +305,31 @@ def step (ns : Bool) (p : Phys) (b : Barrier) (fk : Key) : Op → Eff
     match b.keyring with
     | none => { bar := b, res := .panic }
     | some kr => { bar := b, res := .okTerm kr.active }
+  | .tick =>
+    -- CheckBarrierAutoRotate: no keyring ⇒ nothing; over the operation limit ⇒ answer "rotate"; otherwise
+    -- persistEncryptions: when something was encrypted since the last tick the keyring (with the updated
+    -- counter) is persisted again under the in-memory root key; memory is otherwise unchanged
+    match b.keyring with
+    | none => { bar := b, res := .ok }
+    | some kr =>
+      if b.hot then { bar := b, res := .due } else
+      if b.sealed then { bar := b, res := .ok } else
+      if !b.dirty then { bar := b, res := .ok } else
+      match persist kr with
+      | (ws, .ok) => { bar := { b with dirty := false }, writes := ws, res := .ok }
+      | (ws, r) => { bar := b, writes := ws, res := r }
+  | .setrot d =>
+    -- SetRotationConfig: no sealed check (nil keyring panics); an equal configuration is a no-op; otherwise the
+    -- in-memory keyring is updated FIRST and then persisted
+    match b.keyring with
+    | none => { bar := b, res := .panic }
+    | some kr =>
+      if d = kr.rot then { bar := b, res := .ok } else
+      let nkr := { kr with rot := d }
+      match persist nkr with
+      | (ws, .ok) => { bar := { b with keyring := some nkr, dirty := true }, writes := ws, res := .ok }
+      | (ws, r) => { bar := { b with keyring := some nkr, dirty := b.dirty || !ws.isEmpty }, writes := ws, res := r }
+  | .heat => { bar := { b with hot := true, dirty := true }, res := .ok }
 
 /-! ### the world of the barrier-level stream: one store, the active barrier `a`, a standby `b` -/
 
@@ -342,8 +377,15 @@ swap the keyring only after `persistKeyring` succeeded). -/
 def World.execFault (w : World) (who : Bool) (op : Op) (k : Nat) : World × Res :=
   let bar := if who then w.b else w.a
   let e := step w.ns w.phys bar (termKeyN w.nextT) op
+  if (match op with | .setrot _ => true | _ => false) && decide (k < e.writes.length) then (w, .unmodelled) else
   if k < e.writes.length then
-    ({ w with phys := applyWrites w.phys (e.writes.take k),
+    let enc : Bool := match op with
+      | .put _ _ | .mkupgrade _ => true
+      | .rotate | .rotroot _ | .init _ _ | .tick => decide (1 ≤ k)
+      | _ => false
+    let bar' : Barrier := { bar with dirty := bar.dirty || enc }
+    ({ w with a := if who then w.a else bar', b := if who then bar' else w.b,
+              phys := applyWrites w.phys (e.writes.take k),
               nextT := if e.gen && decide (1 ≤ k) then w.nextT + 1 else w.nextT,
               base := w.phys, writes := e.writes.take k }, .io)
   else w.exec who op
@@ -467,6 +509,7 @@ inductive CoreOp where
   | bootAuto                  -- `Initialize` + `UnsealWithStoredKeys` of a core with an auto-unseal (stored-key) seal
   | put (k v : String) | get (k : String) | del (k : String)
   | rotate                    -- `SealManager.RotateBarrierKey` (sys/rotate/keyring)
+  | tick                      -- `barrier.CheckBarrierAutoRotate` (the core's 5-minute `checkBarrierAutoRotate`)
   | rekey (n t : Nat)         -- `RekeyInit` + `RekeyUpdate`* → `performBarrierRekey`
   | rotroot                   -- `SealManager.RotateBarrierRootKey` (sys/rotate/root)
   | sealC
@@ -506,7 +549,7 @@ def CoreSt.exec (c : CoreSt) : CoreOp → CoreSt × CoreRes
     let kr : Keyring := { root := r, keys := [(1, tk)], active := 1 }
     let ws : List PWrite := (persist kr).1 ++
       [.put .kek (.enc 1 tk .kek (.val (.raw s))), .put .sealcfg (.sealcfg n t), .put .stored (.stored s r)]
-    ({ c with phys := applyWrites [] ws, bar := { sealed := false, keyring := some kr }, sealKey := s,
+    ({ c with phys := applyWrites [] ws, bar := { sealed := false, keyring := some kr, dirty := true }, sealKey := s,
               cur := ⟨s, n, t⟩, prev := ⟨s, n, t⟩, nextS := c.nextS + 1, nextR := c.nextR + 1, nextT := c.nextT + 1,
               base := [], writes := ws, shadow := [] }, .ok)
   | .bootAuto =>
@@ -516,7 +559,7 @@ def CoreSt.exec (c : CoreSt) : CoreOp → CoreSt × CoreRes
     let tk := termKeyN c.nextT
     let kr : Keyring := { root := r, keys := [(1, tk)], active := 1 }
     let ws : List PWrite := (persist kr).1 ++ [.put .sealcfg (.sealcfg 1 1), .put .stored (.stored s r)]
-    ({ c with phys := applyWrites [] ws, bar := { sealed := false, keyring := some kr }, sealKey := s,
+    ({ c with phys := applyWrites [] ws, bar := { sealed := false, keyring := some kr, dirty := true }, sealKey := s,
               cur := ⟨s, 1, 1⟩, prev := ⟨s, 1, 1⟩, nextS := c.nextS + 1, nextR := c.nextR + 1, nextT := c.nextT + 1,
               base := [], writes := ws, shadow := [] }, .ok)
   | .put k v =>
@@ -532,6 +575,9 @@ def CoreSt.exec (c : CoreSt) : CoreOp → CoreSt × CoreRes
     let e := step false c.phys c.bar (termKeyN c.nextT) .rotate
     ({ c with phys := applyWrites c.phys e.writes, bar := e.bar, base := c.phys, writes := e.writes,
               nextT := if e.gen then c.nextT + 1 else c.nextT }, .bar e.res)
+  | .tick =>
+    let e := step false c.phys c.bar (termKeyN 0) .tick
+    ({ c with phys := applyWrites c.phys e.writes, bar := e.bar, base := c.phys, writes := e.writes }, .bar e.res)
   | .rekey n t =>
     if !validCfg n t then (c, .badCfg) else
     match c.bar.sealed, c.bar.keyring with
@@ -565,7 +611,7 @@ def CoreSt.exec (c : CoreSt) : CoreOp → CoreSt × CoreRes
     | (.unsealed, some kr) =>
       -- the Shamir wrapper now holds the combined key, which is the key the stored keys opened under
       let sk := match c.phys.get .stored with | some (.stored sk _) => sk | _ => c.sealKey
-      ({ c with bar := { c.bar with sealed := false, keyring := some kr }, sealKey := sk }, .uns .unsealed)
+      ({ c with bar := { c.bar with sealed := false, keyring := some kr, dirty := true }, sealKey := sk }, .uns .unsealed)
     | (r, _) => (c, .uns r)
 
 /-- restart on the store after the first `k` writes of the last operation, unseal with the current (`new`) or the
